@@ -82,6 +82,13 @@ func ParseReadInputRegistersRequestTCP(data []byte) (*ReadInputRegistersRequestT
 		return nil, err
 	}
 	unitID := data[6]
+	if len(data) < 12 {
+		tmpErr := NewErrorParseTCP(ErrIllegalDataValue, "received data length too short to be valid packet")
+		tmpErr.Packet.TransactionID = header.TransactionID
+		tmpErr.Packet.UnitID = unitID
+		tmpErr.Packet.Function = FunctionReadInputRegisters
+		return nil, tmpErr
+	}
 	if data[7] != FunctionReadInputRegisters {
 		tmpErr := NewErrorParseTCP(ErrIllegalFunction, "received function code in packet is not 0x04")
 		tmpErr.Packet.TransactionID = header.TransactionID
